@@ -53,6 +53,40 @@ CHECKS["C03"] = (
     "measured floor; alphabet values only.",
     "bounded-exhaustive input enumeration vs independent reference model")
 
+CHECKS["C01"] = (
+    "4/C01",
+    "(1) Deviation-bounded exhaustive product over scatterer x theory (19), "
+    "detector kind (8: grids of several shapes/spacings/origins, point lists, "
+    "2-channel), polarization (5), scaling (5), optics-passing mode (2) on "
+    "the real calc_holo/calc_field/calc_intensity: the statement itself "
+    "(|alpha E + p|^2, |E|^2, alpha=0 -> 1), finiteness, coordinates, "
+    "metadata, input purity, plus an independent textbook-Mie anchor.  (2) "
+    "Stateless explicit exploration of every operation sequence of length "
+    "<= 3 over an alphabet of 8/12 calls (Mie, Multisphere, T-matrix "
+    "spheroid A/B/cylinder, MieLens, cross sections, scattering matrix) "
+    "sharing one interpreter, one detector and the scatterer objects: every "
+    "step must be bit-identical to the same call in a pristine (forked) "
+    "interpreter and leave the shared inputs untouched.",
+    "Trusted: fork() yields a pristine interpreter; mpmath table for the "
+    "anchor.  Sequences longer than 3 and values outside the alphabets are "
+    "not covered.",
+    "bounded-exhaustive input enumeration + exhaustive operation-sequence "
+    "search (depth 3) with differential pristine-process oracle")
+CHECKS["C20"] = (
+    "4/C20",
+    "Bounded-exhaustive exploration of contains/in_domain/index_at/bounds/"
+    "voxelate/overlaps/largest_overlap on explicit shape alphabets: lattice "
+    "+ fixed low-discrepancy probe set + points at (1 +- 1e-9) of every "
+    "surface and layer boundary; every ordered pair of 5 primitives under "
+    "the 3 set operations, each under 2 translations; voxel spacings "
+    "r/4..r/64; every subset (and every order up to a bound) of two "
+    "8-sphere placements incl. exactly touching and nested pairs x warn "
+    "flag; explicit invalid inputs.  Oracles in long double / exact "
+    "rationals.",
+    "Trusted: numpy long double / fractions; points exactly on a surface are "
+    "not decided (strict vs non-strict is outside the statement).",
+    "bounded-exhaustive input enumeration vs analytic reference model")
+
 NOT_YET = {}
 
 
